@@ -354,7 +354,8 @@ where
                                 top_level_con_items
                                     .iter()
                                     .skip(*start as usize)
-                                    .take((end - start) as usize + 1)
+                                    // one item per index from start to end, none when the range is reversed
+                                    .take((i64::from(*end) - i64::from(*start) + 1).max(0) as usize)
                                     .map(usize::clone)
                                     .for_each(|i| items.push(i));
                             }
